@@ -34,6 +34,14 @@ def redefine(p, rng, k):
     p.redef()
     feats = []
     r = rng.random()
+    fillnew = rng.random() < 0.45
+    if fillnew and rng.random() < 0.6:
+        # dataset fill mode: enddef fills the variables added below (fixed ones completely, record ones over the
+        # records that exist) -- an extra collective write next to the data that has to survive
+        p.set_fill(True)
+        feats.append("setfill")
+    elif not fillnew and p.fillmode and rng.random() < 0.5:
+        p.set_fill(False)
     if rng.random() < 0.7:
         n = rng.choice([3, 20, 200, 3000, 70000 if rng.random() < 0.15 else 900])
         name = b"att%d" % k
@@ -46,11 +54,17 @@ def redefine(p, rng, k):
             fixed.append(p.def_dim(b"nd%d" % k, rng.randint(1, 6)))
         ds = [rng.choice(fixed) for _ in range(rng.randint(0, 2))]
         p.def_var(b"nf%d" % k, rng.choice(types_for(p.version)), ds)
+        if fillnew and not p.fillmode:
+            p.def_var_fill(len(p.fm.vars) - 1, False)
+            feats.append("varfill")
         feats.append("newfix")
     if p.fm.unlimdim() >= 0 and rng.random() < 0.5:
         fixed = [d for d in range(len(p.fm.dims)) if p.fm.dims[d][1] != 0]
         ds = [p.fm.unlimdim()] + [rng.choice(fixed) for _ in range(rng.randint(0, 2))]
         p.def_var(b"nr%d" % k, rng.choice(types_for(p.version)), ds)
+        if fillnew and not p.fillmode:
+            p.def_var_fill(len(p.fm.vars) - 1, False)
+            feats.append("varfill")
         feats.append("newrec")
     if rng.random() < 0.4:
         args = dict(hmin=rng.choice([0, 0, 16, 700]), valign=rng.choice([0, 4, 8, 64, 512, 1000]),
